@@ -253,3 +253,50 @@ Definition dom_mes (s : cpu) : bool :=
        | None => false
        end
      else true.
+
+(* ---- reference run loop (C13): instructions in order until PC = exit address, one time base ---- *)
+Definition run_data_ok (a : Z) : bool := data_ok a || port_register a.
+
+Inductive rres := RFinished (s : cpu) | RError.
+
+(* charge of the MES system call TRAPA #0 as the emulator accounts it: I2, K2 at the stack pointer, N4 *)
+Definition mes_charge (s : cpu) : Z := 2 * price_at s 0 (pc s) + 2 * price_at s 2 (reg32 s 7 mod A24) + 4.
+
+Definition touches_timer (i : insn) (s : cpu) : bool :=
+  existsb (fun p => (fst p <=? 0xffff99) && (0xffff80 <=? fst p + snd p - 1)) (accesses i s).
+
+Fixpoint ref_run (fuel : nat) (s : cpu) (sync : Z) : option rres :=
+  match fuel with
+  | O => None
+  | S k =>
+    let one : option (option (cpu * Z)) :=       (* None: no claim; Some None: the instruction fails; Some (Some ..): executed *)
+      if is_mes_call s then
+        (if dom_mes s then Some (option_map (fun s' => (s', mes_charge s)) (mes_ref s)) else None)
+      else
+        match ref_decode s with
+        | Some (IUnimplemented, len) => if code_ok s len then Some None else None
+        | Some (i, len) =>
+          if exec_dom run_data_ok i len s && negb (touches_timer i s) then
+            match sem_ref i len s with Some s' => Some (Some (s', charge_ref i len s)) | None => None end
+          else None
+        | None => None
+        end in
+    match one with
+    | None => None
+    | Some None => Some RError
+    | Some (Some (s1, c)) =>
+      let state := 3 * c in
+      let total := ssum s1 + state in
+      let s2 := set_bus (bset_sum total (cbus s1)) (set_ssum total s1) in
+      let sync1 := sync + state in
+      let s3 := if (2000000 <=? sync1) && sock s2 then set_bus (bset_msgs (b_msgs (cbus s2) ++ [MsgSync total]) (cbus s2)) s2 else s2 in
+      let sync2 := if 2000000 <=? sync1 then sync1 - 2000000 else sync1 in
+      if pc s3 =? exit_addr s3 then Some (RFinished s3) else ref_run k s3 sync2
+    end
+  end.
+
+(* run() first loads PC from ER2 and programs the bus controller *)
+Definition ref_run_init (s : cpu) : option cpu :=
+  let s0 := with_pc (reg32 s 2) s in
+  obind (put8 s0 0xfee020 0xff) (fun s1 => obind (put8 s1 0xfee021 0xfb) (fun s2 => obind (put8 s2 0xfee022 0xff) (fun s3 =>
+  obind (put8 s3 0xfee023 0xcf) (fun s4 => put8 s4 0xfee026 0xe0)))).
